@@ -210,7 +210,9 @@ static bool walk_cb(void *ctx_, void *it)
             uint8_t *   txt = unhex(arg, &n, &p2);
             uint8_t *   zone = unhex(*p2 == ':' ? p2 + 1 : "-", &zn, NULL);
             const CErr *err = NULL;
-            int         rc  = t->set_name(it, &err, (const char *) txt, n, zn ? zone : NULL, zn);
+            /* ":+" = a default zone given as a valid pointer with length 0 (an empty buffer), ":-" or nothing = NULL */
+            int         plus = (*p2 == ':' && p2[1] == '+');
+            int         rc  = t->set_name(it, &err, (const char *) txt, n, (zn || plus) ? zone : NULL, zn);
             free(txt);
             free(zone);
             if (rc == 0) put(o, " M=OK");
